@@ -1200,6 +1200,48 @@ class Translator:
             raise Untranslatable(f'function {name} not found in {file}')
         return cands[0]
 
+    GROUPS = {'mido/messages/encode.py': 'Codec', 'mido/messages/decode.py': 'Codec', 'mido/messages/checks.py': 'Codec',
+              'mido/tokenizer.py': 'Tok', 'mido/midifiles/meta.py': 'MetaNum', 'mido/midifiles/tracks.py': 'Tracks',
+              'mido/midifiles/midifiles.py': 'FileIO'}
+    DEPS = {'Codec': [], 'Tok': [], 'MetaNum': [], 'Tracks': [], 'FileIO': ['MetaNum', 'Tracks']}
+
+    def run_groups(self):
+        """one generated file per group of source files, so that a function that cannot be translated (or an edit that
+        breaks a proof) only touches the ties that really depend on it"""
+        out = {}
+        structs = {}
+        per = {g: [] for g in self.DEPS}
+        for u in self.units:
+            g = self.GROUPS[u.file]
+            defs = per[g]
+            if u.cls is not None and u.self_type not in structs:
+                fl = '\n'.join(f'  {k} : {lty(t)} := {dflt}' for k, (t, dflt) in u.field_defaults.items())
+                structs[u.self_type] = f'structure {u.self_type} where\n{fl}\n  deriving DecidableEq, Repr, Inhabited'
+                defs.append(structs[u.self_type])
+            try:
+                pycls = getattr(u, 'pycls', None)
+                fn = self.find(u.file, u.name, pycls or u.cls)
+                if pycls:
+                    fn = ast.parse(ast.unparse(fn)).body[0]
+                    if not fn.args.args or fn.args.args[0].arg != 'self':
+                        raise Untranslatable('method without self')
+                    if not getattr(u, 'keep_self', False):
+                        fn.args.args = fn.args.args[1:]
+                defs.append(FnTranslator(self, u, fn).translate())
+            except Untranslatable as e:
+                self.failures.append(f'{u.file}:{(getattr(u, "pycls", None) or u.cls or "")}.{u.name}: {e}')
+                defs.append(f'-- NOT TRANSLATED: {u.lean_name}: {e}')
+        per['Codec'].append(self.name_tables())
+        note = '/- GENERATED by harness/py2lean.py from the SOURCE TEXT of the mido working tree. Do not edit. -/'
+        out['SrcTables'] = '\n\n'.join([note + '\nimport MidoModel.PySem\nnamespace Mido.Src\nopen Mido Mido.Py\n'] +
+                                        list(self.tables.values()) + ['end Mido.Src', ''])
+        for g, defs in per.items():
+            imports = ['import MidoModel.PySem', 'import MidoModel.Generated.SrcTables'] + [f'import MidoModel.Generated.Src{d}' for d in self.DEPS[g]]
+            head = [note] + imports + ['set_option linter.unusedVariables false', 'namespace Mido.Src', 'open Mido Mido.Py', '']
+            out['Src' + g] = '\n\n'.join(['\n'.join(head)] + defs + ['end Mido.Src', ''])
+        out['Src'] = note + '\n' + '\n'.join(f'import MidoModel.Generated.Src{g}' for g in per) + '\n'
+        return out
+
     def run(self):
         defs = []
         structs = {}
@@ -1329,12 +1371,12 @@ def units():
 def regenerate():
     import_mido()
     tr = Translator(units())
-    text = tr.run()
-    path = os.path.join(LEAN_DIR, 'MidoModel', 'Generated', 'Src.lean')
-    old = open(path).read() if os.path.exists(path) else None
-    if old != text:
-        with open(path, 'w') as f:
-            f.write(text)
+    for name, text in tr.run_groups().items():
+        path = os.path.join(LEAN_DIR, 'MidoModel', 'Generated', name + '.lean')
+        old = open(path).read() if os.path.exists(path) else None
+        if old != text:
+            with open(path, 'w') as f:
+                f.write(text)
     return tr.failures
 
 
